@@ -362,6 +362,42 @@ theorem c03_history_raw (cfg : Cfg) (le : String → String → Bool) (ops : Lis
   obtain ⟨o, ho, rfl⟩ := List.mem_map.mp he
   exact Parse.RawOp.ev_wf cfg o (h o ho)
 
+/-- **c03_history_raw_target** — the same for a listener whose search side is in unicast mode (`SsdpSearchListener` with a
+    non-multicast target; filter host `tgt = get_host_string(target)`, `""` = multicast): responses from other hosts are
+    dropped inertly, responses from the target host (`Parse.parseEvT_pass`: `_host = tgt`) are processed exactly as in
+    multicast mode, and the judge holds on every trace. -/
+theorem c03_history_raw_target (cfg : Cfg) (tgt : String) (le : String → String → Bool) (ops : List Parse.RawOp)
+    (h : ∀ o ∈ ops, o.decoded cfg) :
+    ok (traceOf Parse.ipVersion (Parse.skipHdr cfg) le {} (ops.map (Parse.RawOp.evT cfg tgt))) = true := by
+  apply c03_history
+  intro e he
+  obtain ⟨o, ho, rfl⟩ := List.mem_map.mp he
+  exact Parse.RawOp.evT_wf cfg tgt o (h o ho)
+
+/-- **target_response_processed** — in unicast mode a search response whose `_host` is the configured target host is
+    handed to the tracker unchanged (so `valid_search_raw` applies to it: the device becomes known), and a search-socket
+    packet that reaches the filter with another `_host` changes nothing. -/
+theorem target_response_processed (cfg : Cfg) (tgt : String) (pairs : List (String × String)) (s : Tracker String) :
+    (Parse.hget (C16.SMap.writeAll Parse.lower [] pairs) "_host" = some tgt →
+      Parse.parseEvT cfg tgt false pairs = Parse.parseEv cfg false pairs) ∧
+    (tgt ≠ "" → Parse.hget (C16.SMap.writeAll Parse.lower [] pairs) "_host" ≠ some tgt →
+      (step Parse.ipVersion (Parse.skipHdr cfg) s (Parse.parseEvT cfg tgt false pairs)).1 = s ∨
+      Parse.parseEvT cfg tgt false pairs = Parse.parseEv cfg false pairs) := by
+  refine ⟨fun h => Parse.parseEvT_pass cfg tgt false pairs (Or.inr (Or.inr h)), fun ht hh => ?_⟩
+  unfold Parse.parseEvT
+  cases hp : Parse.parseEv cfg false pairs with
+  | msg m =>
+    left
+    have : (Parse.hget (C16.SMap.writeAll Parse.lower [] pairs) "_host" != some tgt) = true := by
+      simpa using hh
+    have hte : tgt.isEmpty = false := by
+      cases hte : tgt.isEmpty with
+      | false => rfl
+      | true => exact absurd (String.isEmpty_iff.mp hte) ht
+    simp [this, hte, step]
+  | purge n => right; rfl
+  | noise t => right; rfl
+
 /-! ### the string layer, at the constants of the property text -/
 
 /-- **max_age_value** — `CACHE-CONTROL: max-age=<n>` announces `n` seconds for every `n` a `timedelta` can hold
